@@ -1,5 +1,5 @@
 #!/venv/bin/python
-"""Regenerates the tables of DESIGN.md section 13 (between the BEGIN/END markers) from
+"""Regenerates the tables of DESIGN.md section 14 (between the BEGIN/END markers) from
 selftest/mutants_last_run.log and seeded/results.json + seeded/*/meta.json."""
 import ast, json, re
 from pathlib import Path
@@ -14,7 +14,7 @@ if log.exists():
                 rows.append(ast.literal_eval(l))
             except Exception:
                 pass
-out.append("### 13.1 Hand-seeded mutants (`selftest/mutants.py`, last full run)\n")
+out.append("### 14.1 Hand-seeded mutants (`selftest/mutants.py`, last full run)\n")
 out.append("| property | mutant | result | replay (mutant / pristine exit) | first violation class |")
 out.append("|---|---|---|---|---|")
 for r in rows:
@@ -23,7 +23,7 @@ for r in rows:
     out.append(f"| {r[0]} | `{r[1]}` | {r[2]} | {rp.group(1) + ' / ' + rp.group(2) if rp else '-'} | {cls.group(1) if cls else ''} |")
 out.append(f"\n{sum(1 for r in rows if r[2] == 'CAUGHT')} of {len(rows)} caught.\n")
 res = json.loads((ROOT / "seeded" / "results.json").read_text()) if (ROOT / "seeded" / "results.json").exists() else {}
-out.append("### 13.2 Changes written by independent sub-agents (`seeded/<id>/`)\n")
+out.append("### 14.2 Changes written by independent sub-agents (`seeded/<id>/`)\n")
 out.append("Each sub-agent saw only the property text and a scratch worktree. `a*` = first round, `b*` = second round "
            "(asked for cooperating edits / carried-over state / unusual environments), `n*` = property-preserving changes "
            "(the check must stay quiet).\n")
@@ -43,10 +43,10 @@ for d in sorted(p for p in (ROOT / "seeded").iterdir() if (p / "meta.json").exis
 text = "\n".join(out)
 p = ROOT / "DESIGN.md"
 s = p.read_text()
-b, e = "<!-- BEGIN GENERATED 13 -->", "<!-- END GENERATED 13 -->"
+b, e = "<!-- BEGIN GENERATED -->", "<!-- END GENERATED -->"
 if b in s:
     s = s[:s.index(b) + len(b)] + "\n" + text + "\n" + s[s.index(e):]
 else:
-    s += f"\n## 13. Which checks catch which changes\n\n{b}\n{text}\n{e}\n"
+    s += f"\n## 14. Which checks catch which changes\n\n{b}\n{text}\n{e}\n"
 p.write_text(s)
-print("section 13 regenerated:", len(rows), "mutants,", len(res), "seeded results")
+print("section 14 regenerated:", len(rows), "mutants,", len(res), "seeded results")
